@@ -154,6 +154,8 @@ def run(ck):
             return
         ck.log("cluster up, database created after %.0fs" % (time.time() - t0))
 
+        strict_info = {}
+        strict_bad = []
         sent = {}       # value -> time its first request was sent
         last_bad = []   # the complete list of wrong points of the last failing check
         acked = {}      # timestamp -> last acknowledged value
@@ -255,6 +257,10 @@ def run(ck):
                               ("restart", v), ("sleep", rnd.choice([2, 8, 15])), ("write", keys[:3]),
                               ("check", "round %d: store%d rejoined" % (_round, v + 1))]
             steps += [("sleep", 10), ("check", "final")]
+            # strict-read probe for finding C05-master-elected-before-catch-up: a store is down during acknowledged
+            # overwrites, restarts, and right then another store is killed; answers are read at once, without waiting
+            steps += [("kill", 1), ("write", list(range(0, 8)) * 3), ("restart", 1), ("sleep", 4), ("kill", 0),
+                      ("strict", 25), ("restart", 0), ("sleep", 15), ("check", "after the strict-read probe")]
         for st in steps:
             if st[0] == "write":
                 for k in st[1]:
@@ -288,6 +294,22 @@ def run(ck):
                 history.append(("resume", st[1], round(time.time() - t0, 3)))
             elif st[0] == "sleep":
                 time.sleep(st[1])
+            elif st[0] == "strict":
+                # every complete answer during the next st[1] seconds, compared at once with the acknowledged values
+                end = time.time() + st[1]
+                answers, stale = 0, []
+                while time.time() < end:
+                    got, _err = read_all()
+                    if got is not None:
+                        answers += 1
+                        bad = [(ts, v, got.get(ts)) for ts, v in acked.items()
+                               if got.get(ts) != v and got.get(ts) not in maybe.get(ts, set())]
+                        if bad:
+                            stale.append((round(time.time() - t0, 3), len(bad), bad[:3]))
+                            strict_bad.append(bad)
+                    time.sleep(0.2)
+                strict_info.update({"ran": True, "complete_answers": answers, "stale_answers": len(stale), "first_stale": stale[:2],
+                                    "last_stale_at": stale[-1][0] if stale else None})
         nack = len([h for h in history if h[0] == "ack"])
         raft_dirs = 0
         for root, dirs, _files in os.walk(work):
@@ -296,6 +318,23 @@ def run(ck):
                                        "unacked_writes": len([h for h in history if h[0] == "noack"]),
                                        "fault_steps": [h for h in history if h[0] in ("kill", "restart", "pause", "resume")],
                                        "checks": [h for h in history if h[0].startswith("read")], "raft_entry_dirs_on_disk": raft_dirs, "wall_s": round(time.time() - t0)}
+        if strict_info:
+            ck.cov["black_box_cluster"]["strict_read_probe"] = strict_info
+            if strict_info.get("stale_answers"):
+                # a stale answer that heals: the transient of finding C05-master-elected-before-catch-up (open, design level)
+                opened = getattr(ck, "c05_open", lambda fid: None)
+                # signature: every stale answer shows the rejoined store's state at its kill for points overwritten during
+                # its outage (same decidable form as the replay-race signature, here for a transient)
+                sigs = [replay_race_signature(history, b, sent) for b in strict_bad]
+                strict_info["signature"] = all(x is not None and x[0] == 1 for x in sigs)
+                if strict_info["signature"] and opened("C05-master-elected-before-catch-up"):
+                    ck.known_finding("C05-master-elected-before-catch-up",
+                                     "after the store of the master partition died, electRgMaster makes the first online slave peer the master and "
+                                     "reads are mapped to it although it rejoined a moment ago and has not caught up: with one store down "
+                                     "acknowledged points are missing or stale in the answers until it has caught up")
+                else:
+                    ck.violation({"kind": "direct-oracle-cluster", "what": "strict read: stale answers with one store down: %s" % strict_info,
+                                  "history": [e for e in history if e[0] != "read"]})
         if raft_dirs < 3:
             ck.cov["black_box_cluster"] = "NOT RUN: database was not replicated through raft (%d __raft_entries__ dirs)" % raft_dirs
             return
